@@ -405,14 +405,14 @@ pub(crate) fn c01_t_sponge_process_step_rate16_35() {
 #[doc = "verif-unwindset: Engine::<64..2>::process#1=6"]
 #[cfg_attr(kani, kani::stub(crate::hashing::sha3::keccak_f, keccak_f_rec))]
 pub(crate) fn c01_t_sponge_process_step_rate72() {
-    case_process::<64, 2, 147>();
+    case_process::<64, 2, 40>();
 }
 #[cfg_attr(kani, kani::proof)]
 #[cfg_attr(kani, kani::unwind(146))]
 #[doc = "verif-unwindset: Engine::<28..0>::process#1=6"]
 #[cfg_attr(kani, kani::stub(crate::hashing::sha3::keccak_f, keccak_f_rec))]
 pub(crate) fn c01_t_sponge_process_step_rate144() {
-    case_process::<28, 0, 146>();
+    case_process::<28, 0, 20>();
 }
 
 // padding, all eight real instantiations
